@@ -589,7 +589,8 @@ def thread_corpus(t, n):
         elif k == 9:
             out.append(docs.obj(id=tok, method='ok', params={'zz': tok}))
         elif k == 10:
-            out.append(docs.obj(id=tok, method='fac2', params=[tok, tok]))
+            out.append(docs.obj(id=tok, method='fac2', params=[tok, tok]) if i % 48 < 12 else
+                       docs.obj(id=tok, method='js_ref', params={'a': i, 'b': {'t': tok}}))
         else:
             out.append(docs.obj(id=tok, method='kwonly', params={'a': tok, 'k': tok}))
     return out
